@@ -45,7 +45,7 @@ Definition merge (st : TPState) (mode : Z) (r : tp_line) : TPState :=
 Lemma apply_line_eq st r :
   apply_line st r =
   obind (if time_changed (l_time r) (ts_time st) then flush_pending_points st else Done st)
-        (fun st1 => Done (merge st1 (g_mode (ts_general st)) r)).
+        (fun st1 => Done (merge st1 (tpg_mode (ts_general st)) r)).
 Proof.
   destruct st as [g t pt pd pe ps c].
   unfold apply_line, add_control_point, flush_pending_points, merge.
@@ -211,14 +211,14 @@ Record Inv (g : tp_general) (st : TPState) (cur : list tp_line) : Prop := mkInv 
   inv_g : ts_general st = g;
   inv_pt : ts_pt st = omap line_tp (timing_winner cur);
   inv_pd : ts_pd st = omap line_dp (winner cur);
-  inv_pe : ts_pe st = omap (line_ep (g_mode g)) (winner cur);
+  inv_pe : ts_pe st = omap (line_ep (tpg_mode g)) (winner cur);
   inv_ps : ts_ps st = omap line_sp (winner cur);
   inv_time : forall x, last_opt cur = Some x -> ts_time st = l_time x }.
 
 Lemma inv_init g : Inv g (tp_init g) [].
 Proof. constructor; try reflexivity. intros x H; discriminate. Qed.
 
-Lemma flush_inv g st cur : Inv g st cur -> flush_cp st = cp_run (ts_cp st) (run_ops (g_mode g) cur).
+Lemma flush_inv g st cur : Inv g st cur -> flush_cp st = cp_run (ts_cp st) (run_ops (tpg_mode g) cur).
 Proof.
   intros [Hg Ht Hd He Hs _]. unfold flush_cp, run_ops. rewrite Ht, Hd, He, Hs. unfold winner.
   destruct (timing_winner cur) as [w|]; destruct (last_opt (filter inherited cur)) as [v|];
@@ -236,7 +236,7 @@ Proof.
 Qed.
 
 Lemma merge_inv g st cur r :
-  Inv g st cur -> Inv g (merge st (g_mode g) r) (cur ++ [r]).
+  Inv g st cur -> Inv g (merge st (tpg_mode g) r) (cur ++ [r]).
 Proof.
   intros [Hg Ht Hd He Hs _]. unfold merge.
   constructor; cbn [ts_general ts_pt ts_pd ts_pe ts_ps ts_time];
@@ -256,7 +256,7 @@ Proof. reflexivity. Qed.
 Lemma rec_run_spec g : forall rs cur st,
   Inv g st cur -> chain cur ->
   obind (rec_run st rs) tp_finish =
-  cp_run (ts_cp st) (flat_map (run_ops (g_mode g)) (runs (cur ++ rs))).
+  cp_run (ts_cp st) (flat_map (run_ops (tpg_mode g)) (runs (cur ++ rs))).
 Proof.
   induction rs as [|r rs IH]; intros cur st HI Hch.
   - cbn [rec_run obind]. rewrite app_nil_r. unfold tp_finish.
@@ -267,13 +267,13 @@ Proof.
       rewrite (flat_runs_cut _ (run_ops_nil _)); [|exact Hch|].
       2:{ intros x Hx. unfold same_time. rewrite <- (inv_time _ _ _ HI x Hx), Ech. reflexivity. }
       rewrite cp_run_app.
-      destruct (cp_run (ts_cp st) (run_ops (g_mode g) cur)) as [c| |]; cbn [obind]; [|reflexivity..].
+      destruct (cp_run (ts_cp st) (run_ops (tpg_mode g) cur)) as [c| |]; cbn [obind]; [|reflexivity..].
       set (st1 := mkTS (ts_general st) (ts_time st) None None None None c).
       assert (H1 : Inv g st1 []).
       { constructor; try reflexivity; [exact (inv_g _ _ _ HI) | intros x H; discriminate]. }
-      rewrite (IH [r] (merge st1 (g_mode g) r) (merge_inv _ _ _ r H1) I). reflexivity.
+      rewrite (IH [r] (merge st1 (tpg_mode g) r) (merge_inv _ _ _ r H1) I). reflexivity.
     + cbn [obind].
-      rewrite (IH (cur ++ [r]) (merge st (g_mode g) r) (merge_inv _ _ _ r HI)).
+      rewrite (IH (cur ++ [r]) (merge st (tpg_mode g) r) (merge_inv _ _ _ r HI)).
       * rewrite <- app_assoc. reflexivity.
       * apply chain_snoc; [exact Hch|]. intros x Hx. unfold same_time.
         rewrite <- (inv_time _ _ _ HI x Hx), Ech. reflexivity.
